@@ -765,3 +765,36 @@ Lemma declaration_order_irrelevant pr c b r :
 Proof.
   unfold view_outcome_p, checks_apply, csrf_enabled. rewrite effective_order_irrelevant. reflexivity.
 Qed.
+
+(* ------------------------------------------------------------------ round 6: the view option at two levels; positional order *)
+Lemma explicit_is_spec cls call : explicit_of cls call = spec_explicit cls call.
+Proof. destruct cls, call; reflexivity. Qed.
+
+(* whatever the call passes wins over the class default -- an explicit None included *)
+Lemma call_level_wins cls v : explicit_of cls (Some v) = v.
+Proof. reflexivity. Qed.
+
+Lemma class_level_only_when_call_silent cls : explicit_of cls None = match cls with Some v => v | None => None end.
+Proof. reflexivity. Qed.
+
+(* a class-level opt-out (or opt-in) is void when the call passes require_csrf=None: the configured default decides,
+   both in the code's `enabled` and in the documented rule *)
+Lemma call_none_hands_over_to_default c cls :
+  c_explicit c = explicit_of cls (Some None) ->
+  csrf_enabled c = spec_in_force c /\
+  spec_in_force c = (o_require (spec_effective c) && negb (c_exception_only c)
+                     && (truthy (o_token (spec_effective c)) || truthy (o_header (spec_effective c)))).
+Proof.
+  intros H. split; [apply enabled_is_in_force|]. unfold spec_in_force. rewrite H. reflexivity.
+Qed.
+
+(* ... while a call that says nothing leaves a class-level False in charge: not checked *)
+Lemma class_opt_out_stands_when_call_silent pr c r :
+  c_explicit c = explicit_of (Some (Some false)) None -> view_outcome_p pr c r = Ran.
+Proof. intros H. apply opted_out_unchecked. exact H. Qed.
+
+Lemma Facts_ok_positional : sdc_positional_order_ok = true.
+Proof. vm_compute. reflexivity. Qed.
+
+Lemma Facts_ok_plumbing : view_option_plumbing_ok = true.
+Proof. vm_compute. reflexivity. Qed.
